@@ -36,6 +36,45 @@ class Census:
                 if r['body']:
                     self.body_name[r['body']] = nm
 
+    def callers_of(self, path):
+        """direct in-crate callers of a function; a closure is 'called' by the function that creates it"""
+        if getattr(self, '_rev', None) is None:
+            rev = {}
+            for g, ys in self.cg.edges.items():
+                for y in ys:
+                    rev.setdefault(y, set()).add(g)
+            for c, par in self.F.closure_parent.items():
+                rev.setdefault(c, set()).add(par)
+            self._rev = rev
+        return self._rev.get(path, set())
+
+    def moved_from_reviewed(self, fn, n, spare):
+        """A census site sits in a function that has no table entry. It is accepted as *moved* (helper extraction) when the
+        function is reached only from functions that do have a reviewed entry of the same kind with unused budget:
+        every direct caller G (transitively through other untabled helpers, depth <= 3) satisfies spare(G) >= n, where
+        spare(G) = reviewed count - current count of that kind in G. Nothing new was added, operations only moved under a
+        caller whose context was reviewed. -> list of callers or None"""
+        seen = set()
+        tops = set()
+        work = [(fn, 0)]
+        while work:
+            x, d = work.pop()
+            if x in seen:
+                continue
+            seen.add(x)
+            cs = self.callers_of(x) - {x}
+            if not cs or d > 3:
+                return None
+            for g in cs:
+                sp = spare(g)
+                if sp is None:
+                    work.append((g, d + 1))       # untabled intermediate helper: look further up
+                elif sp >= n:
+                    tops.add(g)
+                else:
+                    return None
+        return sorted(tops) if tops else None
+
     def fn_key(self, path):
         """stable key of a function: registered closures are keyed by their builtin name"""
         parts = []
@@ -176,7 +215,7 @@ def index_sites(census, fns):
         fk = census.fn_key(fn)
         for bb, t in b.asserts():
             if t[3] == 'BoundsCheck':
-                out.append((fk, 'BoundsCheck', b, bb, None))
+                out.append((fk, 'elem', b, bb, None))
         for c in b.calls:
             if not (INDEX_RE.search(c.target) and 'ops::Index' in c.target):
                 continue
@@ -185,6 +224,7 @@ def index_sites(census, fns):
             kind = 'str' if ('for str' in c.target or 'string::String' in c.target) else ('HashMap' if 'HashMap' in c.target else ('slice' if 'for [T]' in c.target else ('Vec' if 'vec::Vec' in c.target else 'other')))
             if 'Range' in ity:
                 kind += '-range'
+            kind = {'Vec': 'elem', 'slice': 'elem', 'Vec-range': 'range', 'slice-range': 'range'}.get(kind, kind)
             auto = None
             if 'RangeFull' in ity:
                 auto = 'full-range'
